@@ -1,11 +1,22 @@
 /-
   Protocol ops of one area (see /verif/FRAMEWORK.md).  Not part of any theorem.  Core Lean only.
+  Region area (C09): the stages of `Minimize` one by one, `invertSegments` on a raw segment list,
+  and the spec-side cover.
 -/
 import Gts.Model.Sexp
+import Gts.Spec.Cover
 namespace Gts
+
+def encInts (xs : List Int) : String := "[" ++ " ".intercalate (xs.map toString) ++ "]"
 
 def evalReg (op : String) (args : List Sexp) : Option String :=
   match op, args with
+  | "reg.flatten", [r] => do pure (encSegs (← decReg? r).flatten)
+  | "reg.sort", [r] => do pure (encSegs (Reg.sortSegs (← decReg? r).flatten))
+  | "reg.invsegs", [r, n] => do
+      pure (encSegs (Reg.invertSegments (← decReg? r).leaves (← decInt? n)))
+  | "spec.cover", [r, lo, k] => do
+      pure (encInts (coverList (← decReg? r) (← decInt? lo) (← decInt? k).toNat))
   | _, _ => none
 
 end Gts
